@@ -30,6 +30,7 @@ import (
 	"github.com/magisterquis/curlrevshell/lib/opshell"
 	"github.com/magisterquis/curlrevshell/verifharness/mon"
 	"github.com/magisterquis/curlrevshell/verifharness/mon/bk"
+	"github.com/magisterquis/curlrevshell/verifharness/mon/crs"
 	"github.com/magisterquis/curlrevshell/verifharness/mon/hk"
 )
 
@@ -997,6 +998,19 @@ type server struct {
 	pos   int // log position after the last marker
 	nmark int
 	nprb  int
+	// the real binary instead of the in-process server (flagv.go): markers,
+	// notices and attach lines are then read from its terminal
+	b   *crs.Session
+	mc  *hk.Conn // the kept connection of the markers
+	eng string   // engine name of violations ("" = target)
+	fc  *flagCase
+}
+
+func (sv *server) addr() string {
+	if sv.b != nil {
+		return sv.b.Addr
+	}
+	return sv.s.Addr
 }
 
 type hop struct {
@@ -1040,6 +1054,9 @@ func trunc(s string, n int) string {
 
 // mark closes the current notice window; it returns the lines of the window.
 func (sv *server) mark() ([]string, bool) {
+	if sv.b != nil {
+		return sv.binMark()
+	}
 	sv.nmark++
 	tag := fmt.Sprintf("MARK-%d-%d", sv.si, sv.nmark)
 	sv.s.Och <- opshell.CLine{Line: tag}
@@ -1109,7 +1126,7 @@ func (sv *server) request(g tgt, method, target string, first bool) string {
 func (sv *server) plain(g tgt, method, target string, first bool) hop {
 	h := hop{Method: method, Target: target}
 	raw := sv.request(g, method, target, first)
-	res, _, err := hk.RoundTrip(sv.s.Addr, "", []byte(raw), hk.Bound)
+	res, _, err := hk.RoundTrip(sv.addr(), "", []byte(raw), hk.Bound)
 	if res == nil {
 		h.Err = fmt.Sprint(err)
 		return h
@@ -1125,7 +1142,7 @@ func (sv *server) plain(g tgt, method, target string, first bool) hop {
 // viaCurl sends the target with the real curl (--path-as-is).
 func (sv *server) viaCurl(target string) hop {
 	h := hop{Method: "GET", Target: target, Via: "curl"}
-	pr := mon.Proc{Path: "/usr/bin/curl", Args: []string{"--path-as-is", "-sk", "--http1.1", "-i", "--max-time", "20", "https://" + sv.s.Addr + target}, Timeout: 30 * time.Second}.Run()
+	pr := mon.Proc{Path: "/usr/bin/curl", Args: []string{"--path-as-is", "-sk", "--http1.1", "-i", "--max-time", "20", "https://" + sv.addr() + target}, Timeout: 30 * time.Second}.Run()
 	if pr.TimedOut || pr.Status != 0 {
 		h.Err = fmt.Sprintf("curl exit %d timeout=%v: %s", pr.Status, pr.TimedOut, pr.Stderr)
 		return h
@@ -1154,6 +1171,9 @@ func (sv *server) viaCurl(target string) hop {
 // stream probes a target that names /i/{id}, /o/{id} or /io: it watches for
 // the attach notice and for the end of the response at the same time.
 func (sv *server) stream(g tgt, inf info, target string) hop {
+	if sv.b != nil {
+		return sv.binStream(g, inf, target)
+	}
 	sv.nprb++
 	var raw, want, method, shape string
 	out := fmt.Sprintf("OUT-%d-%d", sv.si, sv.nprb)
@@ -1411,7 +1431,18 @@ func (sv *server) violate(idx int, key, what string, g tgt, hops []hop) {
 		w["last_notices"] = hops[n-1].Notices
 		w["last_body_head"] = trunc(string(hops[n-1].body), 300)
 	}
-	sv.r.Violate("target", idx, key, fmt.Sprintf("%s [-serve-files-from = %s, %s %s]", what, sv.kind, g.method, strconv.Quote(trunc(g.target, 200))), w)
+	eng := "target"
+	if sv.eng != "" {
+		eng = sv.eng
+		sv.fc.witness(w)
+		if sv.fc.lexical && sv.mode == "dir" {
+			// one finding, whatever way it shows: the directory served is the lexically cleaned spelling of the
+			// value, not the directory the value leads to
+			what = fmt.Sprintf("the value %q reaches its directory through a symbolic link followed by '..'; the program checks that directory but serves the lexically cleaned spelling of the value, a different directory: %s", sv.fdir, what)
+			key = "root-through-link-and-dotdot-served-as-cleaned-lexically"
+		}
+	}
+	sv.r.Violate(eng, idx, key, fmt.Sprintf("%s [-serve-files-from = %s, %s %s]", what, sv.kind, g.method, strconv.Quote(trunc(g.target, 200))), w)
 }
 
 func containsAny(hay []byte, needles []string) (string, bool) {
@@ -1802,7 +1833,11 @@ func (sv *server) runTarget(idx int, g tgt) bool {
 			}
 			if h.Shell != "" {
 				// the connection is closed by now; let the broker finish before the next probe
-				sv.s.Log.Wait(start, hk.Bound, func(e bk.Event) bool { return e.Kind == "op" && strings.Contains(e.S, "Shell is gone") })
+				if sv.b != nil {
+					sv.b.Wait(`Shell is gone`, start, crs.Bound)
+				} else {
+					sv.s.Log.Wait(start, hk.Bound, func(e bk.Event) bool { return e.Kind == "op" && strings.Contains(e.S, "Shell is gone") })
+				}
 			}
 		}
 		hops = append(hops, h)
@@ -2001,7 +2036,7 @@ func runServer(r *mon.Run, si int, t *tree, ki int, per int) {
 }
 
 func Run(r *mon.Run) {
-	r.Rule = "generated directory trees (depth <= 3; names with spaces, %, unicode, '..x', 'x..', '...', leading dots, literal '%2e%2e'; every file a unique token) that contain things named like the shell endpoints: c and io (a file in two trees out of three, a directory with index.html and x in the others), directories i/ and o/ each with files x, id, two ids drawn from a pool (spaces, unicode, %41, ?, #, ;) and a random hex id; canaries outside the root (sibling files and directories, a name-prefix sibling, parents, the directory that holds the symbolic links; content tokens, and name tokens that no request ever spells). Eight servers per tree (hsrv.Server in-process on real TLS), one per way of naming -serve-files-from: the directory, one regular file inside it, unset, a symbolic link to the directory, a symbolic link to the file, a chain of 2-4 links (each absolute or relative) to the directory, such a chain to the file, a dangling link (1-2 hops). The first three get the full number of random request lines (the same ones), every link kind a quarter of it (its own). Request lines are written raw (hk.RoundTrip; a sample through real curl --path-as-is): existing and missing clean paths, dot segments plain/%2e/%252e/mixed, ..;/, %2f %5c and backslashes, //, /./, overlong UTF-8, trailing dots, NUL and control bytes, 8 KiB paths, absolute-form, *, authority-form, no leading slash, queries, methods, Range, odd protocol versions, shell-named paths and near misses; 301s are followed by hand (<= 5 hops). SPECIAL NAMES: beside the canaries with made-up names, every tree has canaries outside the root whose NAME is one that the program, net/http or a request's last segment may single out - index.html, index.htm, favicon.ico, robots.txt, .htaccess, the shell endpoint names c, io, x, i/x, o/x, and names equal to in-tree files (the single-mode file, withindex/index.html, sub/f.txt, sub/c, four random files, at the same relative place) - in the parent of the root, in sibling directories (secret/, rootx/), in the directory that holds the symbolic links (one lexical step up from a root named through a link) and above all case directories (shared by the trees); every server gets 160 quick / 600 thorough (dir and symlink-to-dir; half of it file and chain-to-dir; a quarter the rest) traversal targets whose LAST SEGMENT is such a name: the climb written in one of the nine spellings of the other classes (%2e%2e in every case mix most often, plain, double-encoded, %2f, backslash, ..;, overlong, trailing dots, empty segments), from the root, an in-tree directory, a shell-named or a missing prefix, exactly as many levels as the canary needs (one more or less in a quarter of them), also up two and down again by the case directory's name and by the absolute path; method GET, HEAD, POST, PUT/DELETE/PATCH/OPTIONS/TRACE, a made-up token or CONNECT with a path (which the router neither cleans nor redirects); one in eight in absolute-form, one in twelve with a query, a sample through curl --path-as-is. Counted: targets that the router passes on as written and that, decoded once and joined lexically to the configured path, name an existing canary - by root kind, by name, by way (encoded dots, other method, CONNECT, absolute-form). Judged by the same oracle as every other target (no canary token, a 2xx body exactly an in-tree file); for an in-tree .../index.html both net/http's 301 to ./ and the file itself are inside the statement (recorded, not demanded). On top, every server gets the shell endpoint x method matrix: paths /c, /%63, /io, /io/, /io/x, /i%6f, /i/<id> and /o/<id> for every id with files plus one without (ids percent-encoded in three styles) x methods GET HEAD POST PUT DELETE PATCH OPTIONS TRACE, two made-up tokens from a list (get, PROPFIND, G%54, ...) and one random token x request body none / Content-Length 0 / a body that ends / an open chunked body (all cells on the directory and file servers, one in three elsewhere). Oracle: no response at any hop contains a canary token; a 2xx body when a directory is named (directly or through links) is exactly an in-tree file (or the announced range of one) or a listing whose entries are exactly those of an in-tree directory; when a regular file is named (directly or through links) exactly that file comes back for non-shell targets (or an HTTP-layer rejection for targets that are not clean); unset answers 404; a dangling link yields no file content at all; for every request whose path names /c, /i/{id}, /o/{id}, /io or /io/..., whatever the method: the response carries no file token and the marker window of the request holds no 'File requested' notice (the file handler did not take it), /c returns the script, and the project's own uses (GET /i/{id}; POST or PUT with a body on /o/{id}; POST or PUT with an open body on /io) attach a stream (attach notice; delivered input line counted) - what other methods do on the streaming endpoints is recorded, not demanded; every request that reaches the file handler has a 'File requested' notice inside its marker window, also under link and dangling roots. Three more engines run beside the request-line servers. GONE (6 servers quick / 24 thorough, one per way of naming a directory or a file, operator queue depth 1, 4, 64 or 1024): waves of 10-24 parallel clients that dial first and then, together, write a file request (a clean target carrying a nonce) and leave at once - TLS half-close (close_notify + FIN) and reading the answer, FIN without close_notify, a complete keep-alive exchange followed by a second request and half-close, close_notify + close without reading, RST (SO_LINGER 0), and ordinary clients as control; every second wave with the operator's terminal stalled (hk.StallOperator: the consumer of the operator channel takes nothing, the queue is filled to the brim with filler lines before the requests are written, the clients are gone before it takes lines again). Oracle: every request for which the file handler's own log record ('File requested' with that request URI; it is written after the operator line was queued) is observed has its 'File requested' operator line before the marker sent afterwards. LIVE (6 / 24 servers: a regular file twice, a symbolic link and a chain of links to it, a directory, a link to a directory): the served file is 64 KiB - 4 MiB (log-uniform, unaligned) of 32-byte lines that spell a per-server token, the version and their own offset. Phase 1: 6-12 clients at once (half of them begin with the whole file at the same instant), each 3 / 6 requests over fresh or kept connections: whole file under varied clean non-shell paths, single ranges (1 byte to the whole file, across the 32 KiB copy-chunk border, open-ended, suffix), two-part ranges, HEAD. Phase 2: 5 / 12 times the file is replaced with nothing in flight - temporary file renamed over it, truncated and rewritten in place, deleted and recreated, for link roots the link switched to a new file / a new directory holding it (every method on every server) - and after each replacement a whole-file request on a fresh connection, a request on a connection kept across all replacements and 1-3 requests at once. Phase 3: 4-6 clients keep requesting while the file is replaced 4 / 10 times atomically (rename over it, link switched); clients and replacer are paced by request counts (two rounds granted per replacement, which is made when one has completed). Oracle: with [lo, hi] = [newest replacement complete before the request was written, newest replacement begun after its answer was read], a 200 body is exactly one of the versions lo..hi (outside phase 3 lo = hi: the current file), a 206 body exactly the announced range of one of them, a HEAD answer announces the length of one of them, 416 only for a range that starts past the end of one of them, and in single-file mode nothing else is an answer; in directory mode a 2xx body that is not (a range of) such a version is content that is no file of the tree. SLOW (4 servers / 12 cases quick, 12 / 48 thorough; a regular file, a directory, a link to the file, a chain of links to the directory, in thorough also a chain to the file and a link to the directory; the cases sleep, so they run on goroutines of their own beside all the other engines from the start): the served file (in directory mode it sits in the tree, half the time in a subdirectory, beside a small one) is 9-64 MiB (log-uniform, unaligned), sparse, with a line at every 16 KiB that spells a per-server token, the block number, its offset and the file's size - more than twice what the kernel can hold between the server's handler and the client's reader (largest TCP send buffer from /proc/sys/net/ipv4/tcp_wmem + 2 MiB; the clients set SO_RCVBUF to 16, 64 or 256 KiB before connecting), so the handler is still in the middle of the file whenever the client stops reading. Every case is one client (raw TLS, hand-written request): it stops reading for 4 s, 11 s, 16 s or 31 s at a random place of the body that leaves more unread than the kernel holds, or twice (4+11, 11+16, 16+4 s; thorough also 31+31 and 31+4), or for 11 s before the first body byte, or reads at a trickle (110 reads of 16 KiB 200 ms apart, 120 reads of 8 KiB 100 ms apart) and then takes the rest, or does not pause (control); the request is for the whole file (half of the cases), an open-ended range, a closed range or a suffix range of at least 8 MiB, under a clean non-shell target carrying a nonce (any path in single-file mode, the file's path in three escapings in directory mode); half the clients keep the connection and afterwards ask for a short range (64 KiB - 1 MiB) on it. Behaviour, request shape and keep-alive are dealt round-robin over the case index (rotated by the seed), so every run has every behaviour in use by its tier, both modes and all four request shapes. Oracle, without a clock: a 2xx answer's body, compared as it arrives with the file (length, first differing byte, rolling CRC-32C), is exactly the file, or for 206 exactly the range that Content-Range announces of a file of that size - a body that ends early or differs is a violation however long the client took; in single-file mode any other status is one too (directory mode: recorded); every answered request has a 'File requested' line with its nonce before a marker sent when all clients of the server are done (more than one is recorded). Only the client's own read watchdog (60 s without a byte while the body is incomplete) is inconclusive. A case = (tree, root kind, request); distinct = distinct (root kind, tree, request line, Range / body shape); clean-missing targets are counted as trivial"
+	r.Rule = "generated directory trees (depth <= 3; names with spaces, %, unicode, '..x', 'x..', '...', leading dots, literal '%2e%2e'; every file a unique token) that contain things named like the shell endpoints: c and io (a file in two trees out of three, a directory with index.html and x in the others), directories i/ and o/ each with files x, id, two ids drawn from a pool (spaces, unicode, %41, ?, #, ;) and a random hex id; canaries outside the root (sibling files and directories, a name-prefix sibling, parents, the directory that holds the symbolic links; content tokens, and name tokens that no request ever spells). Eight servers per tree (hsrv.Server in-process on real TLS), one per way of naming -serve-files-from: the directory, one regular file inside it, unset, a symbolic link to the directory, a symbolic link to the file, a chain of 2-4 links (each absolute or relative) to the directory, such a chain to the file, a dangling link (1-2 hops). The first three get the full number of random request lines (the same ones), every link kind a quarter of it (its own). Request lines are written raw (hk.RoundTrip; a sample through real curl --path-as-is): existing and missing clean paths, dot segments plain/%2e/%252e/mixed, ..;/, %2f %5c and backslashes, //, /./, overlong UTF-8, trailing dots, NUL and control bytes, 8 KiB paths, absolute-form, *, authority-form, no leading slash, queries, methods, Range, odd protocol versions, shell-named paths and near misses; 301s are followed by hand (<= 5 hops). SPECIAL NAMES: beside the canaries with made-up names, every tree has canaries outside the root whose NAME is one that the program, net/http or a request's last segment may single out - index.html, index.htm, favicon.ico, robots.txt, .htaccess, the shell endpoint names c, io, x, i/x, o/x, and names equal to in-tree files (the single-mode file, withindex/index.html, sub/f.txt, sub/c, four random files, at the same relative place) - in the parent of the root, in sibling directories (secret/, rootx/), in the directory that holds the symbolic links (one lexical step up from a root named through a link) and above all case directories (shared by the trees); every server gets 160 quick / 600 thorough (dir and symlink-to-dir; half of it file and chain-to-dir; a quarter the rest) traversal targets whose LAST SEGMENT is such a name: the climb written in one of the nine spellings of the other classes (%2e%2e in every case mix most often, plain, double-encoded, %2f, backslash, ..;, overlong, trailing dots, empty segments), from the root, an in-tree directory, a shell-named or a missing prefix, exactly as many levels as the canary needs (one more or less in a quarter of them), also up two and down again by the case directory's name and by the absolute path; method GET, HEAD, POST, PUT/DELETE/PATCH/OPTIONS/TRACE, a made-up token or CONNECT with a path (which the router neither cleans nor redirects); one in eight in absolute-form, one in twelve with a query, a sample through curl --path-as-is. Counted: targets that the router passes on as written and that, decoded once and joined lexically to the configured path, name an existing canary - by root kind, by name, by way (encoded dots, other method, CONNECT, absolute-form). Judged by the same oracle as every other target (no canary token, a 2xx body exactly an in-tree file); for an in-tree .../index.html both net/http's 301 to ./ and the file itself are inside the statement (recorded, not demanded). On top, every server gets the shell endpoint x method matrix: paths /c, /%63, /io, /io/, /io/x, /i%6f, /i/<id> and /o/<id> for every id with files plus one without (ids percent-encoded in three styles) x methods GET HEAD POST PUT DELETE PATCH OPTIONS TRACE, two made-up tokens from a list (get, PROPFIND, G%54, ...) and one random token x request body none / Content-Length 0 / a body that ends / an open chunked body (all cells on the directory and file servers, one in three elsewhere). Oracle: no response at any hop contains a canary token; a 2xx body when a directory is named (directly or through links) is exactly an in-tree file (or the announced range of one) or a listing whose entries are exactly those of an in-tree directory; when a regular file is named (directly or through links) exactly that file comes back for non-shell targets (or an HTTP-layer rejection for targets that are not clean); unset answers 404; a dangling link yields no file content at all; for every request whose path names /c, /i/{id}, /o/{id}, /io or /io/..., whatever the method: the response carries no file token and the marker window of the request holds no 'File requested' notice (the file handler did not take it), /c returns the script, and the project's own uses (GET /i/{id}; POST or PUT with a body on /o/{id}; POST or PUT with an open body on /io) attach a stream (attach notice; delivered input line counted) - what other methods do on the streaming endpoints is recorded, not demanded; every request that reaches the file handler has a 'File requested' notice inside its marker window, also under link and dangling roots. Three more engines run beside the request-line servers. GONE (6 servers quick / 24 thorough, one per way of naming a directory or a file, operator queue depth 1, 4, 64 or 1024): waves of 10-24 parallel clients that dial first and then, together, write a file request (a clean target carrying a nonce) and leave at once - TLS half-close (close_notify + FIN) and reading the answer, FIN without close_notify, a complete keep-alive exchange followed by a second request and half-close, close_notify + close without reading, RST (SO_LINGER 0), and ordinary clients as control; every second wave with the operator's terminal stalled (hk.StallOperator: the consumer of the operator channel takes nothing, the queue is filled to the brim with filler lines before the requests are written, the clients are gone before it takes lines again). Oracle: every request for which the file handler's own log record ('File requested' with that request URI; it is written after the operator line was queued) is observed has its 'File requested' operator line before the marker sent afterwards. LIVE (6 / 24 servers: a regular file twice, a symbolic link and a chain of links to it, a directory, a link to a directory): the served file is 64 KiB - 4 MiB (log-uniform, unaligned) of 32-byte lines that spell a per-server token, the version and their own offset. Phase 1: 6-12 clients at once (half of them begin with the whole file at the same instant), each 3 / 6 requests over fresh or kept connections: whole file under varied clean non-shell paths, single ranges (1 byte to the whole file, across the 32 KiB copy-chunk border, open-ended, suffix), two-part ranges, HEAD. Phase 2: 5 / 12 times the file is replaced with nothing in flight - temporary file renamed over it, truncated and rewritten in place, deleted and recreated, for link roots the link switched to a new file / a new directory holding it (every method on every server) - and after each replacement a whole-file request on a fresh connection, a request on a connection kept across all replacements and 1-3 requests at once. Phase 3: 4-6 clients keep requesting while the file is replaced 4 / 10 times atomically (rename over it, link switched); clients and replacer are paced by request counts (two rounds granted per replacement, which is made when one has completed). Oracle: with [lo, hi] = [newest replacement complete before the request was written, newest replacement begun after its answer was read], a 200 body is exactly one of the versions lo..hi (outside phase 3 lo = hi: the current file), a 206 body exactly the announced range of one of them, a HEAD answer announces the length of one of them, 416 only for a range that starts past the end of one of them, and in single-file mode nothing else is an answer; in directory mode a 2xx body that is not (a range of) such a version is content that is no file of the tree. SLOW (4 servers / 12 cases quick, 12 / 48 thorough; a regular file, a directory, a link to the file, a chain of links to the directory, in thorough also a chain to the file and a link to the directory; the cases sleep, so they run on goroutines of their own beside all the other engines from the start): the served file (in directory mode it sits in the tree, half the time in a subdirectory, beside a small one) is 9-64 MiB (log-uniform, unaligned), sparse, with a line at every 16 KiB that spells a per-server token, the block number, its offset and the file's size - more than twice what the kernel can hold between the server's handler and the client's reader (largest TCP send buffer from /proc/sys/net/ipv4/tcp_wmem + 2 MiB; the clients set SO_RCVBUF to 16, 64 or 256 KiB before connecting), so the handler is still in the middle of the file whenever the client stops reading. Every case is one client (raw TLS, hand-written request): it stops reading for 4 s, 11 s, 16 s or 31 s at a random place of the body that leaves more unread than the kernel holds, or twice (4+11, 11+16, 16+4 s; thorough also 31+31 and 31+4), or for 11 s before the first body byte, or reads at a trickle (110 reads of 16 KiB 200 ms apart, 120 reads of 8 KiB 100 ms apart) and then takes the rest, or does not pause (control); the request is for the whole file (half of the cases), an open-ended range, a closed range or a suffix range of at least 8 MiB, under a clean non-shell target carrying a nonce (any path in single-file mode, the file's path in three escapings in directory mode); half the clients keep the connection and afterwards ask for a short range (64 KiB - 1 MiB) on it. Behaviour, request shape and keep-alive are dealt round-robin over the case index (rotated by the seed), so every run has every behaviour in use by its tier, both modes and all four request shapes. Oracle, without a clock: a 2xx answer's body, compared as it arrives with the file (length, first differing byte, rolling CRC-32C), is exactly the file, or for 206 exactly the range that Content-Range announces of a file of that size - a body that ends early or differs is a violation however long the client took; in single-file mode any other status is one too (directory mode: recorded); every answered request has a 'File requested' line with its nonce before a marker sent when all clients of the server are done (more than one is recorded). Only the client's own read watchdog (60 s without a byte while the body is incomplete) is inconclusive. FLAG (the real binary, race build, on a pty; 2 cases per value shape quick / 12 thorough, 12 at a time beside the other engines): every other engine hands the path to hsrv.New itself, here it travels through main's flag handling. The program's working directory is a private HOME that the check populates. VALUE SHAPES of -serve-files-from: not given; given but empty; a name followed by an empty second value; '.'; './x'; 'x/'; '../y'; absolute; absolute with a trailing space; names with a leading / trailing / leading-and-trailing / inner space, a single space, leading / trailing tab, trailing newline, leading CR LF, a leading or inner '=', an inner or leading ',', '%41..%20' , '~' and '~/t' (literal names), a leading '-' and '--', unicode, an ideographic space at the end, a trailing dot, upper case, 'x//in/./leaf', 'a/../r', the flag given twice (ordinary, empty first) and three times (the same name with and without spaces at the edges; the last value counts, as in Go's flag package), a symbolic link, a link whose own name ends in a space, a link given absolute, and a link followed by '..'. Every shape that can name a file is run as a directory and as a single file (alternating with the round and the seed); the flag is written '-f v', '-f=v', '--f v', '--f=v' (by index) and placed before, between or after the other options. LOOK-ALIKES: for every value given, every spelling it could be mistaken for after trimming (spaces, tabs, newlines, unicode space; left, right, both), splitting (first / last field, at ',' or '='), joining the fields, filepath.Clean, taking the base name, adding a space at either edge, percent-unescaping, '~' expansion, stripping leading dashes or trailing '/.' and changing case is computed, and wherever that spelling names a place that is not the tree (nor inside it, nor above it) a canary is put there: a directory holding inside.txt, index.html, sub/f.txt, c, i/x (the names the tree uses) and a file with a name of its own, or - for a single-file value - a file; earlier values of a repeated flag get the same; HOME itself (unless it is the tree), its parent and the directory of the absolute shapes hold canaries named like the tree's files too; an effectively unset flag gets ordinary neighbours (pub, www, files, static). CONFIGURATION MATRIX: every case runs under two of the program's other documented options drawn by index (one alone when both are of the same group): none, -one-shell, -callback-address once / 36 times, -callback-template as a regular file / through a symbolic link / missing at start-up and created once the program listens, -ctrl-i file / directory / missing / a name with % and spaces, -print-ctrl-i=false, -tls-certificate-cache explicit / default (below HOME) / beside the served root (its PRIVATE KEY is then a canary string), -log, CURLREVSHELL_LOG, -no-timestamps, -ipv6-one-liners=true, -listen-address localhost:0, -prompt; their dashes alternate between '-' and '--', values between '-f v' and '-f=v'. Requests per case (20-30, raw request lines, one through curl): the listing of / and /sub/, every ordinary in-tree file, HEAD and Range; in single-file mode /, /inside.txt, other paths, HEAD, Range; unset: /, names that exist in HOME, HEAD, POST; every canary by its own name; the value itself and its trimmed spelling as a path (as if HOME were served); climbs ('..', %2e%2e, mixed, double-encoded, ..;, %2f, //abs) toward the canaries; /c; and LAST one stream probe (/i/x, /o/x or /io by index; files c, io, i/x, o/x exist in the tree) - under -one-shell the listener goes away with it. The operator channel is the terminal: a marker is a GET /c?c2=<tag> (kept connection) whose 'Sent script ... URL:<tag>' line goes through the same queue as every notice before it, so the window of a request is the terminal text up to that line; attach notices are read from the terminal, the input line is typed on it. Oracle: the same judgeHop / judgeChain as the request-line servers (no canary token in any response; a 2xx body exactly an in-tree file, its announced range, or the listing of an in-tree directory; single file: exactly that file for every non-shell path; effectively unset: 404; /c returns the script, the stream attaches; a 'File requested' notice in the window of every request that reached the file handler), with the tree being what the FINAL value leads to as the system resolves it. Floors: every shape in both rounds, bodies matched / single file exact / notice obligations per shape, every option at least once, >= n/3 distinct option pairs, the four flag spellings, look-alikes placed. A case = (tree, root kind, request); distinct = distinct (root kind, tree, request line, Range / body shape); clean-missing targets are counted as trivial"
 	r.Assumptions = []string{
 		"symlinks inside the tree are not generated (following them is http.Dir behaviour the statement does not speak about); symbolic links are used only to name the configured root itself, where 'naming a directory' / 'naming a single file' is read as what the name resolves to",
 		"for a dangling link the statement fixes no status: only 'no file content', 'shell endpoints untouched' and 'file requests reported' are demanded",
@@ -2013,6 +2048,8 @@ func Run(r *mon.Run) {
 		"'every file request is reported': a file request is one that reached the file handler, witnessed by the handler's own log record; requests of clients that reset the connection may never be read by the server and are then not counted (none is demanded). The pause before the stalled terminal takes lines again only shapes the schedule; no verdict depends on it",
 		"'exactly that file is returned' under change: a request that overlaps no replacement must get the file as it is; one that overlaps an atomic replacement (rename, link switch) must get one of the versions that bore the name during the request. Replacements that are not atomic (rewrite in place, delete and recreate) are made only while no request is in flight, because no server that reads the file while it is being rewritten can return a consistent copy",
 		"in directory mode the statement is about confinement, not about availability: only 2xx bodies are judged there (they must be exactly an in-tree file or an announced range of one); other statuses are recorded",
+		"flag engine: 'naming a directory / a single file' is read as what the system resolves the value to from the program's working directory (what os.Open, ls and every other program make of it); a flag given more than once names what its LAST value names (Go's flag package; established on the unchanged program); an explicitly empty value is 'left unset' (it is the flag's default value). -icanhazip is not in the matrix (without a network the program exits before serving), nor are -print-default-template and -print-ctrl-i (they print and exit; -print-ctrl-i=false is). Look-alikes that the file system refuses to create are skipped (counted by flag_look_alikes_placed). The bounded waits of this engine (30 s for a marker line, 60 s for an attach notice on the terminal) end in inconclusive, except the attach wait, which is judged like stream()'s: a shell endpoint that answers but never reports an attached stream has lost its meaning",
+		"flag engine, a value that reaches its directory through a symbolic link followed by '..': before fix c8e4054 the program checked the directory the system resolves the value to but served the lexically cleaned spelling (http.Dir joins with filepath.Join); every violation seen under such a value in directory mode carries the key root-through-link-and-dotdot-served-as-cleaned-lexically (known-findings.txt has the fixed: line), and the per-shape floor of matched bodies is not demanded for that shape",
 		"slow downloaders: the statement says what a client obtains, not how fast it must take it: a 2xx answer whose body stops short of the announced file (or range) has not returned 'exactly that file', and in directory mode is a body that is no file of the tree - whether the client read at once or paused for half a minute. The pauses (4-31 s) and the trickle are the workload, made with time.Sleep; no verdict reads a clock. That the server is still sending when the client pauses is arranged by sizes (every pause leaves more of the body unread than the largest TCP send buffer plus the client's small receive buffer plus 2 MiB), not observed inside the server; the floor slow_pauses_with_more_unread_than_the_kernel_holds counts it. A second request on a kept connection that gets no answer at all is recorded, not judged (a server may close kept connections)",
 	}
 	nt := r.N(6, 60)
@@ -2077,6 +2114,12 @@ func Run(r *mon.Run) {
 			}
 		}
 	}
+	// the real binary over the shapes of the flag's value: a pool of its own, beside the others
+	slowWG.Add(1)
+	go func() {
+		defer slowWG.Done()
+		runFlag(r)
+	}()
 	mon.Parallel(len(units), runtime.NumCPU(), func(k int) { units[k]() })
 	slowWG.Wait()
 	q := func(quick, thorough int64) int64 {
@@ -2088,6 +2131,7 @@ func Run(r *mon.Run) {
 	liveGoneFloors(r, nLive, nGone)
 	slowFloors(r, sd)
 	specialFloors(r, nt)
+	flagFloors(r)
 	ntarg := 0
 	for _, k := range rootKinds {
 		ntarg += nt * (per / k.div)
